@@ -72,10 +72,20 @@ def build(p, ctx=None):
     ctx = ctx or Ctx()
     op = p['op']
     if op == 'list':
-        return lazy_dataset.new([decode(v) for v in p['xs']], immutable_warranty=ctx.source_mode)
+        xs = [decode(v) for v in p['xs']]
+        if ctx.source_mode == 'from':          # the explicit constructors instead of `new`
+            return lazy_dataset.from_list(xs)
+        if ctx.source_mode == 'from_dataset':
+            return lazy_dataset.from_dataset(lazy_dataset.new(xs))
+        return lazy_dataset.new(xs, immutable_warranty=ctx.source_mode)
     if op == 'dict':
+        kvs = {k: decode(v) for k, v in p['kvs']}
+        if ctx.source_mode == 'from':
+            return lazy_dataset.from_dict(kvs)
+        if ctx.source_mode == 'from_dataset':
+            return lazy_dataset.from_dataset(lazy_dataset.new(kvs))
         mode = 'pickle' if ctx.source_mode == 'wu' else ctx.source_mode
-        return lazy_dataset.new({k: decode(v) for k, v in p['kvs']}, immutable_warranty=mode)
+        return lazy_dataset.new(kvs, immutable_warranty=mode)
     if op in ('concat', 'intersperse', 'zip', 'keyZip'):
         parts = [build(q, ctx) for q in p['ps']]
         style = p.get('style', 'method')
@@ -155,7 +165,9 @@ def observe(p, idx, keys, cycle_k=0, ctx=None):
     r['keys'] = outcome(lambda: list(ds.keys()))
     r['iter'] = run_stream(lambda: ds, limit=limit)
     r['items'] = run_stream(lambda: ds.items(), limit=limit)
-    r['gets'] = [[i, outcome(lambda: ds[i])] for i in idx]
+    # integer indices arrive as Python ints and as numpy integers (what slices / shuffles pass down)
+    typed = (lambda i: i, lambda i: i, np.int64, np.int32) if getattr(ctx, 'source_mode', 'pickle') != 'pickle' else (lambda i: i,)
+    r['gets'] = [[i, outcome(lambda: ds[typed[t % len(typed)](i)])] for t, i in enumerate(idx)]
     r['getkeys'] = [[k, outcome(lambda: ds[k])] for k in keys]
     # repeatability (C01): iterate again after every other observation
     r['iter2'] = run_stream(lambda: ds, limit=limit)
